@@ -49,10 +49,52 @@ class SymFP:
     def __init__(s, monotone=False, exact_add=False):
         s.ax = []; s.seen = set(); s.UF = {}; s.tiny_sites = []; s.side = []; s.monotone = monotone; s.apps = {}
         s.exact_add = exact_add    # A7 mode: additions are exact, each use records a representability side condition (proved by the caller)
-        s.exact_obl = []
+        s.exact_obl = []; s.num = {}; s.keep = []
     def uf(s, name, n):
         if name not in s.UF: s.UF[name] = z3.Function(name, *([R] * (n + 1)))
         return s.UF[name]
+    # ---- exact dyadic sub-domain (A7): Real terms known to be n/2^q with n a z3 Int term are computed in pure integer arithmetic
+    def dy(s, t):
+        k = t.get_id()
+        if k in s.num: return s.num[k]
+        fr = const_frac(t)
+        if fr is not None:
+            d = fr.denominator
+            if d & (d - 1) == 0 and d <= 2**80 and abs(fr.numerator) < 2**200:
+                q = d.bit_length() - 1; return (z3.IntVal(fr.numerator), q)
+        return None
+    def mk_dy(s, i, q):
+        if s.const_ite(i) is None: i = z3.simplify(i)
+        if z3.is_int_value(i): t = RV(Fraction(i.as_long(), 2**q))
+        else: t = z3.simplify(z3.ToReal(i) / RV(2**q) if q > 0 else z3.ToReal(i))
+        s.num[t.get_id()] = (i, q); s.keep.append(t)
+        t2 = z3.simplify(t)
+        if t2.get_id() != t.get_id(): s.num[t2.get_id()] = (i, q); s.keep.append(t2)
+        return t
+    @staticmethod
+    def const_ite(i):
+        """If(c, k1, k2) with integer literals k1,k2 -> (c, k1, k2)"""
+        if z3.is_app(i) and i.decl().kind() == z3.Z3_OP_ITE and z3.is_int_value(i.arg(1)) and z3.is_int_value(i.arg(2)):
+            return (i.arg(0), i.arg(1).as_long(), i.arg(2).as_long())
+        return None
+    def scale(s, i, f):
+        if f == 1: return i
+        ci = s.const_ite(i)
+        if ci is not None: return z3.If(ci[0], z3.IntVal(ci[1] * f), z3.IntVal(ci[2] * f))
+        return i * f
+    def add_int(s, ia, ib):
+        """ia + ib, pushing the addition into an ite whose branches are literals (borrow/carry terms) so that
+        `t - If(c,eps,0)` and `If(c, t-eps, t)` become the same term"""
+        for (x, y) in ((ia, ib), (ib, ia)):
+            cy = s.const_ite(y)
+            if cy is not None and s.const_ite(x) is None:
+                return z3.If(cy[0], z3.simplify(x + cy[1]), z3.simplify(x + cy[2]))
+        return z3.simplify(ia + ib)
+    def common(s, da, db):
+        q = max(da[1], db[1])
+        ia = s.scale(da[0], 2**(q - da[1])) if q > da[1] else da[0]
+        ib = s.scale(db[0], 2**(q - db[1])) if q > db[1] else db[0]
+        return ia, ib, q
     def uf_i2d(s):
         if 'i2d' not in s.UF: s.UF['i2d'] = z3.Function('i2d', z3.IntSort(), R)
         return s.UF['i2d']
@@ -63,7 +105,11 @@ class SymFP:
         if x != x or x in (float('inf'), float('-inf')): return INF if x > 0 else (-INF if x < 0 else NAN)
         return RV(Fraction(x))
     def from_int(s, v): return RV(v)
-    def neg(s, a): return z3.simplify(-a)
+    def neg(s, a):
+        if s.exact_add:
+            d = s.dy(a)
+            if d is not None and not is_const(a): return s.mk_dy(s.scale(d[0], -1), d[1])
+        return z3.simplify(-a)
     def mono(s, name, t, args):
         """A5: weak monotonicity between applications of the same function (pairwise, capped)"""
         if not s.monotone: return
@@ -95,7 +141,14 @@ class SymFP:
             if c is not None and (c == 0): return RV(0)
             if c is not None and is_pow2(c):
                 # A8: scaling by a power of two is exact when no overflow/underflow (side condition recorded)
-                s.side.append(('pow2-scale', x, c)); return z3.simplify(x * RV(c))
+                s.side.append(('pow2-scale', x, c))
+                if s.exact_add:
+                    d = s.dy(x)
+                    if d is not None and not is_const(x):
+                        sg = -1 if c < 0 else 1; ac = abs(c)
+                        if ac >= 1: return s.mk_dy(d[0] * (sg * int(ac)), d[1])
+                        return s.mk_dy(d[0] * sg, d[1] + (int(1 / ac).bit_length() - 1))
+                return z3.simplify(x * RV(c))
         f = s.uf('fmul', 2); t = f(a, b)
         if s.reg(t):
             na, nb = s.neg(a), s.neg(b)
@@ -119,7 +172,13 @@ class SymFP:
         if ca == 0: return b
         if cb == 0: return a
         if s.exact_add:
-            t = z3.simplify(a + b); s.exact_obl.append((a, b, t)); return t
+            da, db = s.dy(a), s.dy(b)
+            if da is not None and db is not None:
+                ia, ib, q = s.common(da, db); i = s.add_int(ia, ib)
+                t = s.mk_dy(i, q)
+                # A7 side condition: |n| <= 2^53 (then n/2^q has <= 53 significant bits and the rounded sum IS the exact sum)
+                s.exact_obl.append((a, b, t, z3.And(i <= 2**53, i >= -2**53)))
+                return t
         f = s.uf('fadd', 2); t = f(a, b)
         if s.reg(t):
             na, nb = s.neg(a), s.neg(b)
@@ -184,8 +243,18 @@ class SymFP:
     def fabs(s, a): return z3.simplify(z3.If(a >= 0, a, -a))
     def fmin(s, a, b): return z3.simplify(z3.If(a <= b, a, b))
     def fmax(s, a, b): return z3.simplify(z3.If(a >= b, a, b))
-    def select(s, c, a, b): return z3.simplify(z3.If(c, a, b))
+    def select(s, c, a, b):
+        if s.exact_add and z3.is_expr(a) and z3.is_expr(b):
+            da, db = s.dy(a), s.dy(b)
+            if da is not None and db is not None and not (is_const(a) and is_const(b) and False):
+                ia, ib, q = s.common(da, db); return s.mk_dy(z3.If(c, ia, ib), q)
+        return z3.simplify(z3.If(c, a, b))
     def cmp(s, pr, a, b, tie_free=False):
+        if s.exact_add and pr not in ('ord', 'uno', 'true', 'false') and z3.is_expr(a) and z3.is_expr(b):
+            da, db = s.dy(a), s.dy(b)
+            if da is not None and db is not None and not (is_const(a) and is_const(b)):
+                ia, ib, q = s.common(da, db)
+                return z3.simplify({'eq': ia == ib, 'ne': ia != ib, 'lt': ia < ib, 'le': ia <= ib, 'gt': ia > ib, 'ge': ia >= ib}[pr[1:]])
         inf_a = z3.is_expr(a) and (a.eq(INF) or a.eq(-INF)); inf_b = z3.is_expr(b) and (b.eq(INF) or b.eq(-INF))
         if inf_a or inf_b:
             # finite-domain abstraction: every finite value is strictly between -INF and +INF
@@ -255,7 +324,7 @@ class Exec:
         s.naxioms = 0; s.obligations = []; s.errors = 0; s.steps = 0; s.maxsteps = maxsteps
         s.indirect = indirect or {}; s.stubs = stubs or {}
         s.nondet = []; s.nondet_values = nondet_values; s.nnd = 0
-        s.assumed = []; s.calls = []
+        s.assumed = []; s.calls = []; s.store_log = None
     def func(s, name):
         if name not in s.fcache: s.fcache[name] = Func(s.m, name)
         return s.fcache[name]
@@ -274,6 +343,7 @@ class Exec:
             for k in range(ty.n): s.store((ptr[0], ptr[1] + k * s.m.size(ty.el)), ty.el, v[1][k])
             return
         o = s._cells(ptr); off = ptr[1]; sz = s.m.size(ty)
+        if s.store_log is not None: s.store_log.append((ptr[0], off, sz))
         if isinstance(off, int):
             for k in list(o['cells']):
                 if k != off and k < off + sz and off < k + o['cells'][k][1]:
@@ -571,6 +641,9 @@ def run_function(E, fname, args, depth=0):
                     # symbolic integer -> double: exact below 2^53 (side condition recorded as an obligation)
                     # symbolic integer -> double: UF i2d, exact below 2^53, monotone, sign-preserving
                     iv = z3.BV2Int(v, is_signed=(op == 'sitofp'))
+                    if getattr(fp, 'exact_add', False):
+                        E.obligations.append(('int->double exact (|v| <= 2^53)', z3.And(iv <= 2**53, iv >= -2**53)))
+                        regs[i.dest] = fp.mk_dy(iv, 0); continue
                     f = fp.uf_i2d(); t = f(iv)
                     fp.ax.append(z3.Implies(z3.And(iv <= 2**53, iv >= -2**53), t == z3.ToReal(iv)))
                     fp.ax.append(z3.Implies(iv >= 0, t >= 0)); fp.ax.append(z3.Implies(iv <= 0, t <= 0))
@@ -646,7 +719,10 @@ def run_function(E, fname, args, depth=0):
                     regs[i.dest] = r & M
                 else:
                     A = E.bv(a, bits); B = E.bv(b, bits)
-                    if op in ('udiv', 'urem', 'sdiv', 'srem'): E.obligations.append(('division by zero', B != 0))
+                    if op in ('sdiv', 'srem') and isint(b) and 0 < E.sgn(b, bits) and (b & (b - 1)) == 0 and E.solver is not None:
+                        # signed division by a positive power of two of a provably non-negative value == unsigned (solver-checked, then z3 folds it to extract/shift)
+                        if not E.feasible(A < 0): op = 'udiv' if op == 'sdiv' else 'urem'
+                    if op in ('udiv', 'urem', 'sdiv', 'srem') and not isint(b): E.obligations.append(('division by zero', B != 0))
                     r = {'add': lambda: A + B, 'sub': lambda: A - B, 'mul': lambda: A * B, 'and': lambda: A & B, 'or': lambda: A | B, 'xor': lambda: A ^ B,
                          'shl': lambda: A << B, 'lshr': lambda: z3.LShR(A, B), 'ashr': lambda: A >> B, 'sdiv': lambda: A / B, 'udiv': lambda: z3.UDiv(A, B),
                          'srem': lambda: z3.SRem(A, B), 'urem': lambda: z3.URem(A, B)}[op]()
@@ -748,6 +824,23 @@ def call(E, nm, av, i, depth, caller):
             else: v = z3.BitVec('nd%d' % k, rt.bits)
         E.nondet.append((k, 'd' if isinstance(rt, DblT) else 'i%d' % rt.bits, v))
         return v
+    if nm == '@__verif_mark':
+        E.marks = getattr(E, 'marks', []) + [av[0]]
+        E.mark_pos = getattr(E, 'mark_pos', []) + [len(E.store_log) if E.store_log is not None else 0]
+        return None
+    if nm == '@__verif_dyadic':
+        # nondeterministic double that is an integer multiple of 2^-q in [0, bound*2^-q): value = n / 2^q with n a z3 Int
+        q, bound = av[0], av[1]; k = E.nnd; E.nnd += 1
+        if E.nondet_values is not None:
+            w = E.nondet_values[k] if k < len(E.nondet_values) else 0
+            d = struct.unpack('<d', struct.pack('<Q', w))[0]
+            if not (d >= 0 and d * 2.0**q < bound and (d * 2.0**q) == int(d * 2.0**q)): raise Abort('assume(false)')
+            E.nondet.append((k, 'd', d)); return fp.const(d)
+        n = z3.Int('ndq%d' % k); E.assume(z3.And(n >= 0, n < bound))
+        E.assume(n <= bound - 1)
+        v = fp.mk_dy(n, q) if getattr(fp, 'exact_add', False) else z3.ToReal(n) / RV(2**q)
+        E.nondet.append((k, 'd', v)); E.dyadic_ints = getattr(E, 'dyadic_ints', []) + [n]
+        return v
     if nm == '@__verif_fork_u':
         lo, hi = av[0], av[1]; k = E.nnd; E.nnd += 1
         if E.nondet_values is not None:
@@ -809,7 +902,7 @@ class PathResult:
     pass
 
 def explore(m, fname, fp_factory, setup=None, on_path=None, tie_free=False, indirect=None, stubs=None, maxpaths=20000, maxsteps=200000, timeout=None, solver_timeout_ms=30000, args=None,
-            initial_work=None, stop_when_pending=None):
+            initial_work=None, stop_when_pending=None, log_stores=False):
     """DFS over branch decisions by re-execution.  on_path(E, ret, status) is called per completed path with the path's solver loaded.
     initial_work: list of decision prefixes to start from; stop_when_pending: breadth-first seeding phase, returns the unexplored prefixes in stats['remaining']"""
     work = [list(w) for w in initial_work] if initial_work is not None else [[]]
@@ -821,6 +914,7 @@ def explore(m, fname, fp_factory, setup=None, on_path=None, tie_free=False, indi
         solver = z3.Solver(); solver.set('timeout', solver_timeout_ms)
         fp = fp_factory()
         E = Exec(m, fp, solver, tie_free=tie_free, indirect=indirect, stubs=stubs, maxsteps=maxsteps); E.decisions = list(dec)
+        if log_stores: E.store_log = []
         a = setup(E) if setup else (args or [])
         try:
             ret = run_function(E, fname, a)
